@@ -3,7 +3,7 @@ package main
 // C15 — rate limiting is a per-client-subnet token bucket isolating clients.
 
 func init() {
-	register(&Check{ID: "C15", Level: "exploration", Rule: c15RuleText + " | E2E: flooders and a quiet victim on separate subnets against the real binary (REFUSED/503, never forwarded, victim answered)",
+	register(&Check{ID: "C15", Level: "exploration", Rule: c15RuleText + " | E2E: flooders and a quiet victim on separate subnets against the real binary (REFUSED/503, never forwarded, victim answered), pipelined floods of 80 queries on one tcp / gnet / tls connection (every query answered with a well-formed frame, served or REFUSED, bucket respected); the in-process histories contain passes of the limiter's garbage collector (hook H7)",
 		Run: func(c *Ctx) {
 			c15InProcess(c)
 			c15E2E(c)
